@@ -678,6 +678,10 @@ func (vc *VC) evalSpecCall(env *Env, x *SCall) Val {
 				return v
 			}
 		}
+		// addr(xs[i]) / addr(p.f): the address of a struct that lives in memory
+		if loc, t, ok := vc.specPlace(env, x.Args[0]); ok {
+			return Val{T: loc, Typ: types.NewPointer(t)}
+		}
 		return vc.specErr("addr(x): x is not a cell-backed local variable here")
 	case "visited":
 		// visited(k): key k has already been yielded by the map iteration of the
